@@ -229,6 +229,24 @@ def generate(repo, g):
                         u(rn))
     g.define('runFlushesQueueFirst', 'Bool', 'true',
              'subprocess/__init__.py:CompiledSubprocess.run `while True: pop / _send(delete_id, None)` before the request')
+    # the deletion queue is ONE deque PER CompiledSubprocess object: created in __init__, never a class attribute
+    # or a module global (then a replacement helper would be asked to delete states only its predecessor held)
+    cs = [n for n in ast.walk(sub.tree) if isinstance(n, ast.ClassDef) and n.name == 'CompiledSubprocess'][0]
+    Q = '_inference_state_deletion_queue'
+    class_level = [u(n) for n in cs.body if isinstance(n, (ast.Assign, ast.AnnAssign)) and Q in u(n)]
+    module_level = [u(n) for n in sub.tree.body if isinstance(n, (ast.Assign, ast.AnnAssign)) and Q in u(n)]
+    init = sub.find('CompiledSubprocess.__init__')
+    in_init = [u(n) for n in init.body if isinstance(n, ast.Assign) and Q in u(n)]
+    elsewhere = [u(n) for n in ast.walk(cs) if isinstance(n, (ast.Assign, ast.AugAssign)) and Q in
+                 ' '.join(u(t) for t in (n.targets if isinstance(n, ast.Assign) else [n.target]))]
+    fresh = in_init == ['self.%s = collections.deque()' % Q] or in_init == ['self.%s = deque()' % Q]
+    if not fresh and not class_level and not module_level:
+        raise TieBroken('CompiledSubprocess: where the deletion queue is created is not recognised',
+                        repr({'__init__': in_init, 'class': class_level, 'module': module_level}))
+    per_helper = fresh and not class_level and not module_level and elsewhere == in_init
+    g.define('queuePerHelper', 'Bool', lean_bool(per_helper),
+             'subprocess/__init__.py:CompiledSubprocess.__init__ `self._inference_state_deletion_queue = '
+             'collections.deque()` (a fresh deque per helper object; no class attribute / module global of that name)')
 
     # --- Environment._get_subprocess
     gs = envs.find('Environment._get_subprocess')
